@@ -782,6 +782,24 @@ func checkC19(r *Report) {
 	nM := mapOrderRule(r, p, "C19.g/MAP-ORDER", cfs)
 	signSymmetryRule(r, p, "C19.g/SIGN-SYMMETRIC", cfs)
 	r.floor("C19.g/MAP-ORDER", "three-way comparators of attr, dep and version", nM, 2)
+	// h. LOOP-SINGLE-STEP: the schema parsers look at every token. A nested
+	// loop that advances the outer loop's counter past the token it consumed
+	// and then breaks lets the outer post statement skip the next token.
+	hPkgs := []string{"resolve/internal/deptest", "resolve/internal/versiontest", "resolve/internal/attr", "resolve/dep", "resolve/version"}
+	nLoops := 0
+	ord := map[string]int{}
+	for _, l := range countedLoops(p, hPkgs...) {
+		nLoops++
+		fn := p.enclosingFuncName(l.outer)
+		ord[fn]++
+		key := fmt.Sprintf("loop:%s#%d", fn, ord[fn])
+		if l.bad.IsValid() {
+			r.bad("C19.h/LOOP-SINGLE-STEP", key, p.pos(l.bad), "the inner loop increments the enclosing loop's counter and then breaks; the enclosing post statement increments it again, so the token after the one consumed here is never parsed")
+		} else {
+			r.ok("C19.h/LOOP-SINGLE-STEP", key, p.pos(l.outer), "no nested loop advances the counter and breaks ahead of the post statement")
+		}
+	}
+	r.floor("C19.h/LOOP-SINGLE-STEP", "counted loops examined", nLoops, 3)
 }
 
 // quoteAgreeRule: a writer and the parser documented as its inverse agree on
